@@ -83,16 +83,18 @@ RULE = ('rt*: rows x cols with every residue of rows*cols mod 8 incl. < 8 pixels
         'dtypes / omit / native+RLE+JPEG-LS / memory layouts, request lists of source frame numbers (all, shuffled, '
         'sub-lists with repetitions), three objects; modes: tpm (same tile size as the source: read by source '
         'frame), tpm_full (TILED_FULL) and tpm_size (another tile size): by-frame indexing refused as documented, '
-        'stored frames + get_total_pixel_matrix judged; rt_tiled_frames: the same sources, mask handed over frame '
+        'stored frames + get_total_pixel_matrix judged, tpm_order: as tpm on a TILED_SPARSE source that lists its '
+        'frames in a shuffled (not row-major) order - judged through the source frame references and the read by '
+        'source frame (open finding D113, signature FINDINGS[D113]) or, same object, through everything else; '
+        'rt_tiled_frames: the same sources, mask handed over frame '
         'by frame, TILED_SPARSE sources with shuffled frame order; tiled_bad: every guard of the entry point; '
         'valid kinds: the model also evaluates its `valid` predicate and its specification (must both be true); malformed: every constructor and query guard violated once; pack/frame_at: pydicom packing, '
         'get_raw_frame/decode_frame/read_frame_raw on hand-made bit-packed images; '
         'non-trivial = at least one non-zero pixel read back (or a refusal); distinct by case hash')
 NOT_EXECUTED = ['JPEG 2000 transfer syntaxes (no openjpeg codec installed)',
                 'JPEG-LS on frames < 64 pixels or on noisy frames (the pyjpegls plugin fails with "destination buffer too small"; JPEG-LS masks are kept sparse)',
-                'tile_pixel_array=True with a TILED_SPARSE source whose frames are NOT listed in row-major tile order, '
-                'with several optical paths / focal planes, or with caller-supplied geometry (plane_positions, '
-                'pixel_measures, plane_orientation): see claims note (the first is a reported defect)',
+                'tile_pixel_array=True with a source that has several optical paths / focal planes or missing tiles, or '
+                'with caller-supplied geometry (plane_positions, pixel_measures, plane_orientation): C03/C04',
                 'get_total_pixel_matrix / get_tiles read paths of tiled segmentations: observed oracle-only here, '
                 'modelled by C04']
 EXHAUSTIVE = {'quick': False, 'thorough': False}
@@ -175,7 +177,19 @@ def _all_rounds_to_zero(c):
     return any(v != 0 for v in flat) and all(_rhe(v * c['maxfrac'], c['den']) == 0 for v in flat)
 
 
-FINDINGS = {}     # no open C01 finding (D59, D61, D67 were fixed while this check was built)
+def _d113(c):
+    """signature of the OPEN finding D113: tile_pixel_array=True with the tile size of the source (source frames
+    are referenced), a TILED_SPARSE source whose frames are NOT listed in row-major tile order, and the result
+    judged through the source frame references / the read by source frame.  NOT covered (still judged): the same
+    source with the mask handed over frame by frame (rt_tiled_frames), the stored frames and the total pixel
+    matrix read of the same object (judge == 'matrix'), every row-major source."""
+    return (c.get('kind') == 'rt_tiled' and c.get('mode') == 'tpm_order' and c.get('judge') == 'byframe' and
+            c.get('th') == c.get('sth') and c.get('tw') == c.get('stw') and not c.get('src_full') and
+            c.get('forder') is not None and c['forder'] != sorted(c['forder']))
+
+
+# D59, D61, D67 were fixed while this check was built; D113 (source frame references of tile_pixel_array) is open
+FINDINGS = {'D113': _d113}
 
 
 # --------------------------------------------------------------------------
@@ -613,8 +627,12 @@ def _tiled_case(rng, mode=None, ts=None):
     library cuts it into frames itself.  mode tpm: same tile size as the source, TILED_SPARSE - every stored frame
     refers to the source frame it lies under, read back by source frame; tpm_full: TILED_FULL organisation (no
     per-frame items; by-frame indexing is refused as documented), tpm_size: another tile size than the source
-    (no source frame references) - for both the stored frames and get_total_pixel_matrix are observed"""
-    mode = mode or rng.choice(['tpm'] * 6 + ['tpm_full', 'tpm_size', 'tpm_size'])
+    (no source frame references) - for both the stored frames and get_total_pixel_matrix are observed;
+    tpm_order: as tpm, but the TILED_SPARSE source lists its frames in another order than row-major
+    (forder[k] = tile index of source frame k): judge == 'byframe' demands the property through the source frame
+    references and the read by source frame (open finding D113), judge == 'matrix' judges everything else of the
+    same object (stored frames, PixelData, omission, total pixel matrix)"""
+    mode = mode or rng.choice(['tpm'] * 5 + ['tpm_order'] * 2 + ['tpm_full', 'tpm_size', 'tpm_size'])
     big = ts == 'jpegls'
     th, tw = rng.choice([(8, 8), (8, 9)]) if big else rng.choice(TILE_SIZES)
     R, C = _grid(rng, th, tw, lim=300 if big else 150)
@@ -634,6 +652,15 @@ def _tiled_case(rng, mode=None, ts=None):
     c.update(mode=mode, th=th, tw=tw, sth=sth, stw=stw, nsrc=nsrc, src_full=rng.random() < 0.5,
              explicit_size=mode == 'tpm_size' or rng.random() < 0.3, req=req, req_is_numbers=True, sR=R, sC=C,
              byframe=True, assert_missing=rng.random() < 0.85, workers=0 if c['workers'] == 2 else c['workers'])
+    if mode == 'tpm_order':
+        if nsrc < 2:
+            c['mode'] = 'tpm'
+        else:
+            forder = list(range(nsrc))
+            while forder == sorted(forder):
+                rng.shuffle(forder)
+            c.update(src_full=False, forder=forder, judge=rng.choice(['byframe', 'byframe', 'matrix']),
+                     assert_missing=True)
     return c
 
 
@@ -764,7 +791,7 @@ def gen_cases(rng, tier):
     for _ in range(16 * N):
         cases.append(_sched_case(rng))
     # tiled sources: the mask as one total pixel matrix (every mode at least twice), frame by frame, refusals
-    for m in ('tpm', 'tpm', 'tpm_full', 'tpm_full', 'tpm_size', 'tpm_size'):
+    for m in ('tpm', 'tpm', 'tpm_full', 'tpm_full', 'tpm_size', 'tpm_size', 'tpm_order', 'tpm_order'):
         cases.append(_tiled_case(rng, mode=m))
     for _ in range(36 * N):
         cases.append(_tiled_case(rng))
@@ -892,7 +919,11 @@ def _sources(c):
         if c.get('which') == 't_not_tiled':
             return [synth.ct_multiframe([0.0, 2.5], c['sth'], c['stw'])]
         if _tpm(c):
-            return [synth.sm_tiled(c['sR'], c['sC'], c['sth'], c['stw'], tiled_full=c['src_full'])]
+            sm = synth.sm_tiled(c['sR'], c['sC'], c['sth'], c['stw'], tiled_full=c['src_full'])
+            if c.get('forder') is not None and not c['src_full']:
+                items = list(sm.PerFrameFunctionalGroupsSequence)
+                sm.PerFrameFunctionalGroupsSequence = [items[t] for t in c['forder']]
+            return [sm]
         sm = synth.sm_tiled(c['R'], c['C'], c['th'], c['tw'], tiled_full=c['src_full'])
         if not c['src_full']:
             # a TILED_SPARSE image may list its frames in any order: source frame k is the tile forder[k]
@@ -923,15 +954,15 @@ def _meta(seg, c, uids):
 def _meta_tiled(seg, c):
     """per stored frame (segment or 0, tile index) of a segmentation the library tiled itself: the tile index
     (row-major over the tiles of the total pixel matrix) is taken from the plane position of the frame, for
-    TILED_FULL from the implied order (segment-major, tiles row-major); a source frame reference, where there
-    is one, must name the source frame lying under that tile"""
+    TILED_FULL from the implied order (segment-major, tiles row-major); + the source frame number each stored
+    frame refers to ([] if there are no references); + notes on frames that are not on the tile grid"""
     th, tw = c['th'], c['tw']
     ntc = _cdiv(c['cols'], tw)
     nt = _cdiv(c['rows'], th) * ntc
-    notes = []
+    notes, refs = [], []
     if 'PerFrameFunctionalGroupsSequence' not in seg:
         it = [0] if c['ty'] == 'LABELMAP' else c['segs']
-        return [[s, t] for s in it for t in range(nt)], notes
+        return [[s, t] for s in it for t in range(nt)], refs, notes
     out = []
     for k, f in enumerate(seg.PerFrameFunctionalGroupsSequence):
         s = int(f.SegmentIdentificationSequence[0].ReferencedSegmentNumber) if 'SegmentIdentificationSequence' in f else 0
@@ -939,16 +970,12 @@ def _meta_tiled(seg, c):
         r, q = int(pp.RowPositionInTotalImagePixelMatrix) - 1, int(pp.ColumnPositionInTotalImagePixelMatrix) - 1
         if r % th or q % tw or not (0 <= r < c['rows'] and 0 <= q < c['cols']):
             notes.append(f'stored frame {k + 1} is at matrix position ({r + 1}, {q + 1}), not on the tile grid')
-        t = (r // th) * ntc + q // tw
-        if 'DerivationImageSequence' in f and len(f.DerivationImageSequence) and c['mode'] == 'tpm':
-            si = f.DerivationImageSequence[0].SourceImageSequence[0]
-            if int(si.ReferencedFrameNumber) - 1 != t:
-                notes.append(f'stored frame {k + 1} lies under source frame {t + 1} but refers to source frame '
-                             f'{int(si.ReferencedFrameNumber)}')
-        elif c['mode'] == 'tpm':
-            notes.append(f'stored frame {k + 1} does not refer to the source frame it was derived from')
-        out.append([s, t])
-    return out, notes
+        if 'DerivationImageSequence' in f and len(f.DerivationImageSequence):
+            refs.append(int(f.DerivationImageSequence[0].SourceImageSequence[0].ReferencedFrameNumber))
+        out.append([s, (r // th) * ntc + q // tw])
+    if refs and len(refs) != len(out):
+        notes.append('only some of the stored frames refer to a source frame')
+    return out, refs, notes
 
 
 def _read(obj, c, uids, rescale=False):
@@ -1210,8 +1237,13 @@ def _tiled_observe(seg, c, uids, extras, pdata):
     import numpy as np
     import highdicom as hd
     nframes = int(seg.NumberOfFrames)
-    meta, notes = _meta_tiled(seg, c)
+    meta, refs, notes = _meta_tiled(seg, c)
     extras = extras + notes
+    # does reading ALL source frames give the mask under each of them, given the order the source lists its
+    # frames in?  (decided from the input alone; the model decides it from its own read path)
+    planes = _planes_expected(c)
+    fo = _forder(c)
+    ok_order = all(planes[fo[f]] == planes[f] for f in range(len(fo))) if len(fo) == len(planes) else True
     r_mem = _read(seg, c, uids)
     buf = io.BytesIO()
     try:
@@ -1221,7 +1253,7 @@ def _tiled_observe(seg, c, uids, extras, pdata):
         lazy = hd.seg.segread(io.BytesIO(raw), lazy_frame_retrieval=True)
     except Exception as e:     # noqa
         er = Err('write/read:' + type(e).__name__)
-        return [nframes, meta, pdata, r_mem, er, er, extras, True, True, []]
+        return [nframes, meta, pdata, r_mem, er, er, extras, True, True, [], refs, ok_order]
     r_file = _read(eager, c, uids)
     r_lazy = _read(lazy, c, uids)
     dec = catch(lambda: np.asarray(eager.get_stored_frames()).reshape(nframes, -1).tolist())
@@ -1234,7 +1266,13 @@ def _tiled_observe(seg, c, uids, extras, pdata):
                 extras.append(f'{nm}: get_total_pixel_matrix differs from the total pixel matrix that was stored')
         except Exception as e:     # noqa
             extras.append(f'{nm}: get_total_pixel_matrix raised {type(e).__name__}: {str(e)[:80]}')
-    return [nframes, meta, pdata, r_mem, r_file, r_lazy, extras, True, True, dec]
+    return [nframes, meta, pdata, r_mem, r_file, r_lazy, extras, True, True, dec, refs, ok_order]
+
+
+def _forder(c):
+    """tile index (row-major) of every source frame of a tiled case"""
+    n = _cdiv(c['rows'], c['th']) * _cdiv(c['cols'], c['tw'])
+    return c['forder'] if c.get('forder') is not None else list(range(n))
 
 
 def _planes_expected(c):
@@ -1378,8 +1416,8 @@ def coq_term(c):
         # cfg of a tiled case: rows/cols = tile size, srows/scols = total pixel matrix of the SOURCE
         cfg = (f"(Cfg {c['ty']} {dt} {zlit(c['den'])} {zlit(c['maxfrac'])} {b(c['omit'])} {zl(c['segs'])} "
                f"{c['th']} {c['tw']} {c['sR']} {c['sC']} {c['nsrc']} {b(c['ts'] in ('implicit', 'explicit'))})")
-        return (f"(run_tiled {cfg} {c['rows']} {c['cols']} {b(c['mode'] == 'tpm_full')} {b(c['mode'] == 'tpm')} "
-                f"{inp} {zl(req)} {b(c['assert_missing'])})")
+        return (f"(run_tiled {cfg} {c['rows']} {c['cols']} {b(c['mode'] == 'tpm_full')} "
+                f"{b(c['mode'] in ('tpm', 'tpm_order'))} {inp} {zl(req)} {b(c['assert_missing'])} {zl(_forder(c))})")
     if k == 'rescale':
         return f"(run_rescaled {_cfg(c)} {inp} {zl(_perm(c))} {zl(req)})"
     if k == 'observe':
@@ -1402,8 +1440,11 @@ def _want_read(c):
     n, S = _npix(c), len(c['segs'])
     zero = [[0] * S for _ in range(n)]
     out = []
+    fo = _forder(c) if _tpm(c) and c.get('mode') in ('tpm', 'tpm_order') else None
     for r in c['req']:
         j = r - 1 if c['byframe'] else r
+        if fo is not None and 0 <= j < len(fo):
+            j = fo[j]            # the mask under source frame r is the tile that frame covers
         out.append(exp[j] if 0 <= j < len(exp) else zero)
     return out
 
@@ -1474,21 +1515,32 @@ def oracle(c, out):
     if k in ('observe', 'sched'):
         return _oracle_observe(c, out)
     nframes, meta, pdata, r_mem, r_file, r_lazy, extras = out[:7]
-    noref = _tpm(c) and c['mode'] != 'tpm'
+    noref = _tpm(c) and c['mode'] not in ('tpm', 'tpm_order')
+    skip_byframe = noref or (_tpm(c) and c.get('judge') == 'matrix')
+    if _tpm(c) and not skip_byframe:
+        # every stored frame must refer to the source frame that lies over its tile
+        fo, refs = _forder(c), out[10]
+        if len(refs) != len(meta):
+            return 'the stored frames do not refer to the source frames they were derived from'
+        for k, ((_, t), f) in enumerate(zip(meta, refs)):
+            if not (1 <= f <= len(fo)) or fo[f - 1] != t:
+                under = fo.index(t) + 1 if t in fo else '?'
+                return (f'stored frame {k + 1} holds tile {t} of the total pixel matrix, which lies under source '
+                        f'frame {under}, but refers to source frame {f}')
     if noref:
         # TILED_FULL organisation / another tile size than the source: no stored frame refers to a source frame;
         # indexing by source frame is refused as documented - the stored frames are judged below
         bad = [nm for nm, r in (('memory', r_mem), ('file', r_file), ('lazy', r_lazy)) if r != Err('RuntimeError')]
         if bad:
             return f'expected the documented RuntimeError for indexing by source frame ({c["mode"]}; {bad})'
-    elif c['byframe'] and not c['assert_missing']:
+    elif c['byframe'] and not c['assert_missing'] and not skip_byframe:
         # documented refusal: a requested frame number above every referenced frame
         maxref = max(j for _, j in meta) + 1
         if any(f > maxref for f in c['req']):
             bad = [nm for nm, r in (('memory', r_mem), ('file', r_file), ('lazy', r_lazy)) if r != Err('ValueError')]
             return None if not bad else f'expected the documented ValueError for frames above {maxref} ({bad})'
     for nm, r in (('in-memory', r_mem), ('segread', r_file), ('lazy segread', r_lazy)):
-        if noref:
+        if skip_byframe:
             break
         if isinstance(r, Err):
             return f'{nm}: read-back refused: {r}'
